@@ -12,16 +12,20 @@ structure DState where
 
 def defaultCls : Cls := ⟨fun _ => false, fun _ => false, fun x => [x]⟩
 
-/-- `((cp isspace iskey (lower…)) …)` -/
+/-- `((cp isspace iskey (lower…)) …)`; code points below 1024 are looked up in an array -/
 def mkCls (rows : List SX) : Cls :=
   let tbl : List (Nat × Bool × Bool × List Nat) := rows.map (fun r =>
     match r.getList with
     | [cp, sp, k, lo] => (cp.getNum, sp.getBool, k.getBool, lo.getList.map SX.getNum)
     | _ => (0, false, false, [0]))
-  let find (x : Nat) := tbl.find? (fun r => r.1 == x)
-  ⟨fun x => match find x with | some r => r.2.1 | none => false,
-   fun x => match find x with | some r => r.2.2.1 | none => false,
-   fun x => match find x with | some r => r.2.2.2 | none => [x]⟩
+  let small : Array (Option (Bool × Bool × List Nat)) :=
+    tbl.foldl (fun a r => if r.1 < 1024 then a.set! r.1 (some r.2) else a) (Array.replicate 1024 none)
+  let big := tbl.filter (fun r => r.1 ≥ 1024)
+  let find (x : Nat) : Option (Bool × Bool × List Nat) :=
+    if x < 1024 then small[x]! else (big.find? (fun r => r.1 == x)).map (·.2)
+  ⟨fun x => match find x with | some r => r.1 | none => false,
+   fun x => match find x with | some r => r.2.1 | none => false,
+   fun x => match find x with | some r => r.2.2 | none => [x]⟩
 
 /-! ### decoders -/
 def decEntry (x : SX) : Entry :=
